@@ -13,6 +13,7 @@ fn dispatch(id: &str, ctx: &Ctx) -> Option<Report> {
     Some(match id {
         "C01" => mon::c01::run(ctx),
         "C04" => mon::c04::run(ctx),
+        "C05" => mon::c05::run(ctx),
         _ => return None,
     })
 }
